@@ -29,6 +29,7 @@ class ServerRun:
             self.pipe.a.seg = seg
         self.queue_max = 0
         self.parse_errors = 0
+        self.handled_at_first_error = None
         self.tasks_started = 0
         self._hook = self._sample
         loop.iter_hooks.append(self._hook)
@@ -43,6 +44,8 @@ class ServerRun:
         # web.Application._handle re-raises it first thing, and so does this handler.
         err = getattr(request, "pre_handler_error", None)
         if err is not None:
+            if self.parse_errors == 0:
+                self.handled_at_first_error = len(self.handled)
             self.parse_errors += 1
             raise err
         rec = {
